@@ -75,6 +75,9 @@ def run_witnesses(rep, prop):
         rep.extra.setdefault("witnesses_reached", []).append(f"{cfgname}:{inv}")
 
 
+# the configurations TLC model-checks for a property (MODEL) are also the ones whose every initial state is executed by the real code
+XCFG = MODEL
+
 # the naive policy never suspends: its share of pre-emption scenarios goes to DAGs whose branches run side by side on several pools
 FLAVOURS = {"C17": (("mixed", 0.4), ("tiny", 0.15), ("branchy", 0.35), ("herd", 0.1)),
             "C08": (("mixed", 0.4), ("tiny", 0.15), ("preempt", 0.2), ("herd", 0.1), ("branchy", 0.15)),
@@ -128,6 +131,12 @@ def run(prop, tier, extra=None):
         extra(rep, tier)
     traces = driver_sched.gen_traces(NTRACES[tier], common.seed() + hash(prop) % 1000 if False else common.seed() + int(prop[1:]) * 101,
                                      policies=POLICIES[prop], flavours=FLAVOURS.get(prop, driver_sched.DEFAULT_FLAVOURS))
+    # spec -> code, exhaustively in the small scope: every initial state TLC explores for these configurations is run through the real code
+    from . import exhaustive_sched
+    quick_x, more_x = XCFG[prop]
+    xtraces, xcounts = exhaustive_sched.gen_traces(quick_x + (more_x if tier == "thorough" else []))
+    traces += xtraces
+    rep.extra["model_initial_states_run_in_real_code"] = xcounts
     if prop == "C18":
         # more than a thousand pipelines known to one overbook scheduler, a few of them killed again and again while a flood of tiny ones arrives
         traces += driver_sched.gen_special("flood", 8 if tier == "quick" else 64, common.seed() + 1818, 3 * 10**6)
@@ -169,6 +178,13 @@ def replay(prop, path):
     if rp.get("kind") != "driverA":
         raise MachineryError("replay file has no driver-A scenario")
     rep = Report(prop, "quick")
+    if rp.get("flavour") == "model-init":
+        from . import exhaustive_sched
+        meta = ((payload.get("detail") or {}).get("meta")) or {}
+        tr = exhaustive_sched.replay_one(meta["cfg"], meta["index"])
+        mon, mon2, owners = validate([tr], rep, prop, step=(prop == "C08"))
+        print(f"replay: {len(mon.viols)} contract clause(s) fired, by owner {dict(owners)}")
+        return 1 if rep.violations else 0
     special = {"flood": driver_sched.flood_run, "crowd": driver_sched.crowd_run, "long": driver_sched.long_run}.get(rp.get("flavour"))
     tr = special(rp["seed"], 0) if special else driver_sched.run_scenario(rp["seed"], 0, rp["policy"], rp.get("flavour") or "mixed")
     mon, mon2, owners = validate([tr], rep, prop, step=(prop == "C08"))
